@@ -38,6 +38,7 @@ class Monitor:
         self.init_view = {}            # addr -> first view of the episode (from CREATED / RESET_DONE)
         self.seen_out = {}             # addr -> number of chunks already examined
         self.final = {}                # addr -> (reward, view) of the final observation of the episode
+        self.won = set()               # attackers (addresses) whose final observation of the running episode reported Success
         self.role = {}
         self.stats = {}
 
@@ -96,6 +97,7 @@ class Monitor:
                     diff = [k for k in w if w[k] != self.world0[k]]
                     self.hit(["C08", "C07"], "world not restored by the reset task", f"after the collective reset the world tables {diff} differ from their initial condition")
                 self.count("resets_world_checked")
+                self.won.clear()
         else:
             # C05: once rewarded, the reward does not change until the reset
             for a, v in now["agents"].items():
@@ -208,8 +210,13 @@ class Monitor:
                         self.hit("C04", "end without reason", f"an attacker's episode ended with reason '{reason}'")
                     if reason == "Fail" and not self.cfg["env"].get("use_global_defender"):
                         self.hit("C04", "fail without defender", "an attacker failed although the global defender is off")
+                if role == "Attacker" and reason == "Success":
+                    self.won.add(addr)
                 if role == "Defender":
-                    att_success = any(g._agent_status[a].value == "Success" for a, (_, r) in g.agents.items() if r == "Attacker")
+                    # an attacker in the game succeeded in this episode: by the coordinator's tables, or by what that attacker was TOLD
+                    # (its final observation said Success; nothing but the next episode takes that back)
+                    att_success = any(g._agent_status[a].value == "Success" for a, (_, r) in g.agents.items() if r == "Attacker") or \
+                        any(a in g.agents and g.agents[a][1] == "Attacker" for a in self.won)
                     if (reason == "Success") == att_success:
                         self.hit(["C04", "C05", "C06"], "defender reason", f"defender's reason is {reason} while an attacker {'succeeded' if att_success else 'did not succeed'}")
                 self.final[addr] = (obs["reward"], obs["state"])
@@ -416,7 +423,7 @@ def instrument(S, cfg, CR, goals):
     return M
 
 
-def run_sessions(ctx, prop, n_sessions, gen_opts, cfg_opts=None, extra_monitor=None, n_directed=40, rename=False, scale=False):
+def run_sessions(ctx, prop, n_sessions, gen_opts, cfg_opts=None, extra_monitor=None, n_directed=46, rename=False, scale=False):
     """Generate sessions, follow them with the model, collect this property's monitor hits."""
     CG, CR, nsgenv = _imports()
     rng0 = random.Random(ctx.seed * 104729 + int(prop[1:]))
@@ -429,6 +436,8 @@ def run_sessions(ctx, prop, n_sessions, gen_opts, cfg_opts=None, extra_monitor=N
     stwin = {"sessions": 0, "connections": 0, "differences": 0}
     for i in range(n_sessions):
         rng = random.Random(rng0.randrange(1 << 40))
+        if i < n_directed and i % 23 == 21 and prop not in ("C16", "C17") and ctx.tier != "thorough":
+            continue        # the 100-action episode (17 s inside Coq): every run of C16 and C17, thorough runs of the others
         if i < n_directed:
             # directed scenarios first: the monitor is attached by wrapping Session creation
             holder = {}
